@@ -210,7 +210,7 @@ class KickMapApply(Contract):
         # x kick: table row y (shared by all bunches); source (x+s, y)
         sx = stencil_sum(cx, din, lambda s: n * nx * ny + (x + s) * ny + y, lambda s: And(x + s >= 0, x + s < nx), y, ip)
         # y kick: table row of bunch min(n,_lastbunch), coordinate x; source (x, y+s)
-        row = If(n < cx.f('this._lastbunch'), n, cx.f('this._lastbunch')) * pd + x
+        row = If(cx.f('this._lastbunch') < n, cx.f('this._lastbunch'), n) * pd + x
         sy = stencil_sum(cx, din, lambda s: n * nx * ny + x * ny + (y + s), lambda s: And(y + s >= 0, y + s < ny), row, ip)
         return [('x.form', {'C01', 'C02', 'C08'}, Implies(And(rng, isx), z3.Select(dout, cell) == sx)),
                 ('y.form', {'C01', 'C02', 'C08'}, Implies(And(rng, Not(isx)), z3.Select(dout, cell) == sy)),
@@ -251,7 +251,7 @@ class KickMapApply(Contract):
         nx, ny, nb = ps_globals(cx)
         offs = [('offs', cx.v('offs') == n * nx * ny)] if self._has(cx, 'offs') and not self._has(cx, 'offs1') else []
         offs += [('offs1', cx.v('offs1') == n * nx * ny)] if self._has(cx, 'offs1') else []
-        offs += [('offs2', cx.v('offs2') == If(n < cx.f('this._lastbunch'), n, cx.f('this._lastbunch')) * nx)] if self._has(cx, 'offs2') else []
+        offs += [('offs2', cx.v('offs2') == If(cx.f('this._lastbunch') < n, cx.f('this._lastbunch'), n) * nx)] if self._has(cx, 'offs2') else []
         return [('range', self._ranges(cx, ['n', 'x']))] + offs + \
             self._done(cx, Or(gn < n, And(gn == n, gx < x))) + self._frame(cx)
 
@@ -262,7 +262,7 @@ class KickMapApply(Contract):
         offs = []
         if self._has(cx, 'offs1'):
             offs = [('offs1', cx.v('offs1') == n * nx * ny), ('offs', cx.v('offs') == n * nx * ny + x * ny),
-                    ('offs2', cx.v('offs2') == If(n < cx.f('this._lastbunch'), n, cx.f('this._lastbunch')) * nx)]
+                    ('offs2', cx.v('offs2') == If(cx.f('this._lastbunch') < n, cx.f('this._lastbunch'), n) * nx)]
         else:
             offs = [('offs', cx.v('offs') == n * nx * ny)]
         return [('range', self._ranges(cx, ['n', 'x', 'y']))] + offs + \
@@ -875,10 +875,20 @@ class FokkerPlanckCtor(Contract):
             out.append((f'done.{g}', Implies(And(r >= tz, r < j), self.rowspec(cx, r, 'hi'))))
         return out
 
+    @staticmethod
+    def _split_row(cx, cxb, lab):
+        """row obligations: the ghost row is the one written in this iteration / any other row"""
+        g = lab.split('.')[-1]
+        if g not in ('r0', 'r1', 'r2', 'r3'):
+            return None
+        same = cx.g(g) == cxb.v('j')
+        return [('cur', same), ('other', Not(same))]
+
     def loops_for(self, ci):
-        if ci < 4:
-            return {'j#0': LoopSpec(inv=self._inv_two)}
-        return {'j#0': LoopSpec(inv=self._inv_lo), 'j#1': LoopSpec(inv=self._inv_hi)}
+        ls = {'j#0': LoopSpec(inv=self._inv_two)} if ci < 4 else {'j#0': LoopSpec(inv=self._inv_lo), 'j#1': LoopSpec(inv=self._inv_hi)}
+        for l in ls.values():
+            l.split_by_label = self._split_row
+        return ls
 
     @property
     def calls(self):
